@@ -86,6 +86,27 @@ def run(ctx):
         valid.append(open(p).read())
         if ctx.tier == "quick" and len(valid) >= 7:
             break
+    # sections given in several parts (|loads| ... |bars| ... |loads|): a fault in an earlier part is a fault
+    for i in range(2 if ctx.tier == "quick" else 8):
+        s = G.gen_frame(rng, max_cells=1)
+        while len(s.loads) < 4:
+            s.loads += G.gen_loads_for_bar(rng, s.bars[len(s.loads) % len(s.bars)]["id"], nmax=3, allow_mz_dist=False) or []
+        base = L.layout(rng, s, plain=True)
+        secs = {}
+        cur = None
+        for l in base.split("\n")[1:]:
+            if l.startswith("|"):
+                cur = l
+                secs[cur] = []
+            elif l.strip() and cur:
+                secs[cur].append(l)
+        parts = ["inkfem v1.1"]
+        for pass_ in (0, 1):
+            for h, ls in secs.items():
+                half = ls[: (len(ls) + 1) // 2] if pass_ == 0 else ls[(len(ls) + 1) // 2:]
+                if half:
+                    parts += [h] + half + [""]
+        valid.append("\n".join(parts) + "\n")
     # a load line written twice is two loads (a repeated line is input too, not noise)
     for t in list(valid[:3]):
         ls = t.split("\n")
